@@ -301,9 +301,9 @@ def _t_fftn(c):
     axes = None
     if c.bool():
         k = c.int(1, nd) if w.endswith("n") else 2
-        if c.chance(1, 6):
+        if c.chance(1, 5):
             a0 = c.int(0, nd - 1)
-            axes = tuple([a0] * k)  # repeated axes
+            axes = tuple(c.signed_axis(a0, nd) for _ in range(k))  # repeated axes, each occurrence in either spelling (a or a - ndim)
         else:
             axes = tuple(c.signed_axis(a, nd) for a in c.sample(range(nd), k))
         kw["axes"] = axes
@@ -317,7 +317,7 @@ def _t_fftn(c):
         kw["norm"] = nm
     real = w.startswith("r") or w.startswith("ir")
     return Call("f:fftn", lambda ns, x: getattr(ns.fft, w)(x, **kw), [s], desc=[w, list(s), {k_: v for k_, v in kw.items()}],
-                feats={"fn": w, "has_s": "s" in kw, "norm": nm, "repeated_axes": axes is not None and len(set(axes)) < len(axes),
+                feats={"fn": w, "has_s": "s" in kw, "norm": nm, "repeated_axes": axes is not None and len({a_ % nd for a_ in axes}) < len(axes),
                        "real_fft": real}, cplx=not w.startswith("r"))
 
 
